@@ -409,9 +409,9 @@ func vfH_C10_dispatch() {
 	}
 }
 
-//vf:assume C10-deliver: one stream; the processor hands the relay HEADERS, then a DATA frame of n in {0,1,3} octets with END_STREAM; the receiver's stream and connection windows are symbolic in [0, 8]; WINDOW_UPDATEs of symbolic size 1..8 then arrive for the stream and the connection (either order)
+//vf:assume C10-deliver: one stream; the processor hands the relay HEADERS, then a DATA frame of n in {0,1,3} octets with END_STREAM; the receiver's stream and connection windows are symbolic in [0, 8]; optionally the sender resets the stream while the DATA is held back; WINDOW_UPDATEs of symbolic size 1..8 then arrive for the stream and the connection (either order)
 
-//vf:harness property=C10 nopanic reach=deliver-at-once,deliver-after-window-update,deliver-held-back
+//vf:harness property=C10 nopanic reach=deliver-at-once,deliver-after-window-update,deliver-held-back,deliver-reset-behind-data
 func vfH_C10_deliver() {
 	// whenever the receiver's windows permit, every queued frame is delivered, in order, none stranded
 	off := false
@@ -428,6 +428,7 @@ func vfH_C10_deliver() {
 	n := []int{0, 1, 3}[vfrt.Choice("data-octets", 3)]
 	vfrt.Assert(r.header(1, []hpack.HeaderField{{Name: ":status", Value: "200"}}, false, http2.PriorityParam{}) == nil, "deliver/headers-accepted")
 	vfrt.Assert(r.data(1, make([]byte, n), true) == nil, "deliver/data-accepted")
+	rsts := 0
 	drain := func() (hdrs, data int, end bool) {
 		for len(r.output) > 0 {
 			switch f := (<-r.output).(type) {
@@ -435,9 +436,12 @@ func vfH_C10_deliver() {
 				vfrt.Assert(data == 0, "deliver/headers-before-data")
 				hdrs++
 			case *queuedDataFrame:
+				vfrt.Assert(rsts == 0, "deliver/data-before-the-reset-that-followed-it")
 				data++
 				end = f.endStream
 				vfrt.Assert(len(f.data) == n, "deliver/data-intact")
+			case *queuedRSTStreamFrame:
+				rsts++
 			}
 		}
 		return
@@ -450,6 +454,13 @@ func vfH_C10_deliver() {
 		return
 	}
 	vfrt.Assert(d == 0, "deliver/data-beyond-a-window-is-held-back")
+	// the sender may reset the stream while its DATA is still held back: the reset queues behind the DATA
+	reset := vfrt.Choice("reset-while-held-back", 2) == 1
+	if reset {
+		r.rstStream(1, http2.ErrCodeCancel)
+		drain()
+		vfrt.Assert(rsts == 0, "deliver/reset-does-not-overtake-held-back-data")
+	}
 	// credit arrives
 	is, ic := vfrt.Uint32("stream-increment"), vfrt.Uint32("connection-increment")
 	vfrt.Assume(is >= 1)
@@ -472,6 +483,10 @@ func vfH_C10_deliver() {
 	if n <= sw+int(is) && n <= cw+int(ic) {
 		vfrt.Reach("deliver-after-window-update")
 		vfrt.Assert(d == 1 && end, "deliver/queued-data-released-as-soon-as-both-windows-permit")
+		if reset {
+			vfrt.Reach("deliver-reset-behind-data")
+			vfrt.Assert(rsts == 1, "deliver/reset-delivered-after-the-data-none-stranded")
+		}
 	} else {
 		vfrt.Reach("deliver-held-back")
 		vfrt.Assert(d == 0, "deliver/data-beyond-a-window-stays-queued")
